@@ -35,6 +35,17 @@ func main() {
 			os.Exit(1)
 		}
 		props.DebugExec(prog, os.Args[2], os.Args[3])
+	case "fields":
+		prog, err := core.Load(core.RepoDir(), "")
+		if err != nil {
+			fmt.Println(err)
+			os.Exit(1)
+		}
+		f := ""
+		if len(os.Args) > 2 {
+			f = os.Args[2]
+		}
+		props.DebugFields(prog, f)
 	case "guards":
 		prog, err := core.Load(core.RepoDir(), "")
 		if err != nil {
